@@ -291,8 +291,27 @@ impl Hist {
         ix
     }
 
+    /// One v2 liquidity instruction in twenty-five carries remaining-accounts information made of ONE ZERO-LENGTH slice
+    /// of an arbitrary accounts type (also types that make no sense for the instruction, and unknown type numbers):
+    /// whatever the program decides, both implementations decide the same.
+    fn maybe_empty_slice(w: &mut World, mut ix: Ix, acc: &mut Acc) -> Ix {
+        const V2: [&str; 4] = ["increase_liquidity_v2", "decrease_liquidity_v2", "increase_liquidity_by_token_amounts_v2", "reposition_liquidity_v2"];
+        if !V2.contains(&ix.name) || ix.data.last() != Some(&0) || !rnd::chance(&mut w.r, 1, 25) {
+            return ix;
+        }
+        let ty: u8 = w.r.gen_range(0..10);
+        ix.data.pop();
+        ix.data.push(1);
+        ix.data.extend_from_slice(&1u32.to_le_bytes());
+        ix.data.push(ty);
+        ix.data.push(0);
+        acc.count("v2_liquidity_ix_with_an_empty_slice");
+        ix
+    }
+
     pub fn step(&mut self, w: &mut World, ix: Ix, monitors: &mut [Box<dyn Monitor>], acc: &mut Acc) -> Obs {
         let ix = Self::maybe_sibling_vault(w, ix, acc);
+        let ix = Self::maybe_empty_slice(w, ix, acc);
         let obs = w.exec(ix);
         acc.evaluations += 1;
         acc.count(if obs.ok() { "ix_ok" } else { "ix_failed" });
@@ -960,6 +979,14 @@ impl Hist {
     fn close_ix_maybe_foreign_bundle(&mut self, w: &mut World, i: usize, acc: &mut Acc) -> Ix {
         let ix = w.close_position_ix(i);
         if let PosKind::Bundled { bundle_mint, index } = w.positions[i].kind.clone() {
+            if rnd::chance(&mut w.r, 1, 6) {
+                // the PLAIN close instruction on a bundled position, with the bundle's mint and token account standing in
+                // for a position mint and token (the bundled position records the bundle mint as its position mint)
+                let pi = w.positions[i].clone();
+                let owner = w.users[pi.owner].key;
+                acc.count("plain_close_on_a_bundled_position");
+                return b::ClosePosition { position_authority: owner, receiver: owner, position: pi.position, position_mint: bundle_mint, position_token_account: pi.token_account, token_program: TOKEN }.ix();
+            }
             if rnd::chance(&mut w.r, 1, 3) {
                 let others: Vec<Pubkey> = self.bundles.iter().map(|(m, _, _)| *m).filter(|m| *m != bundle_mint).collect();
                 let same_index: Vec<Pubkey> = others.iter().copied().filter(|m| w.bank.get(&b::pda_bundled_position_u16(*m, index).0).is_some()).collect();
